@@ -12,6 +12,8 @@ import (
 	"os"
 	"os/exec"
 	"path/filepath"
+	"runtime/debug"
+	"sort"
 	"strconv"
 	"strings"
 	"sync"
@@ -54,6 +56,9 @@ func runGenerate(dir string, withReport bool) (ok bool, diag, report, panicMsg s
 		defer func() {
 			if e := recover(); e != nil {
 				panicMsg = fmt.Sprint(e)
+				if os.Getenv("VERIF_STACK") != "" {
+					panicMsg += "\n" + string(debug.Stack())
+				}
 			}
 		}()
 		ok = codegen.Generate(cfg)
@@ -169,6 +174,15 @@ func (g *GenPkg) readBack() error {
 // GenerateAll writes one package per (name, lox text, go source) under root and runs the real
 // generator on each, 16 at a time.
 func GenerateAll(root string, names, loxs, gosrcs []string, withReport bool) []*GenPkg {
+	files := make([]map[string]string, len(names))
+	for i := range names {
+		files[i] = map[string]string{"g.lox": loxs[i]}
+	}
+	return GenerateAllFiles(root, names, files, gosrcs, withReport)
+}
+
+// GenerateAllFiles is GenerateAll for specifications spread over several .lox files.
+func GenerateAllFiles(root string, names []string, loxFiles []map[string]string, gosrcs []string, withReport bool) []*GenPkg {
 	pkgs := make([]*GenPkg, len(names))
 	var wg sync.WaitGroup
 	sem := make(chan struct{}, 16)
@@ -178,10 +192,21 @@ func GenerateAll(root string, names, loxs, gosrcs []string, withReport bool) []*
 			defer wg.Done()
 			sem <- struct{}{}
 			defer func() { <-sem }()
-			g := &GenPkg{Name: names[i], Dir: filepath.Join(root, names[i]), Lox: loxs[i]}
+			g := &GenPkg{Name: names[i], Dir: filepath.Join(root, names[i])}
 			pkgs[i] = g
 			os.MkdirAll(g.Dir, 0o755)
-			os.WriteFile(filepath.Join(g.Dir, "g.lox"), []byte(loxs[i]), 0o644)
+			var fns []string
+			for fn := range loxFiles[i] {
+				fns = append(fns, fn)
+			}
+			sort.Strings(fns)
+			for _, fn := range fns {
+				os.WriteFile(filepath.Join(g.Dir, fn), []byte(loxFiles[i][fn]), 0o644)
+				g.Lox += "// file " + fn + "\n" + loxFiles[i][fn]
+			}
+			if len(fns) == 1 {
+				g.Lox = loxFiles[i][fns[0]]
+			}
 			os.WriteFile(filepath.Join(g.Dir, "p.go"), []byte(gosrcs[i]), 0o644)
 			g.OK, g.Diag, g.Report, g.Panic = runGenerate(g.Dir, withReport)
 			if g.OK {
@@ -322,6 +347,7 @@ type Front struct {
 	Grammar *lr1.Grammar
 	Table   *lr1.ParserTable
 	Ctx     *ast.Context
+	Units   []*ast.Unit
 }
 
 func RunFront(loxText string) (fr *Front) {
@@ -349,6 +375,7 @@ func RunFront(loxText string) (fr *Front) {
 		return fr
 	}
 	fr.Ctx = ctx
+	fr.Units = spec.Units
 	fr.Grammar = ctx.Grammar
 	fr.Table = lr1.ConstructLALR(ctx.Grammar)
 	fr.OK = true
